@@ -37,7 +37,7 @@ MODULES = ['mahotas', 'mahotas.morph', 'mahotas.convolve', 'mahotas.labeled', 'm
            'mahotas.features.surf', 'mahotas.features.lbp', 'mahotas.stretch', 'mahotas.distance', 'mahotas.resize',
            'mahotas.edge', 'mahotas.thin', 'mahotas.euler', 'mahotas.bbox', 'mahotas.center_of_mass', 'mahotas.histogram']
 
-VARIANTS = ['valid', 'wrong_dtype', 'wrong_shape', 'wrong_shape_t', 'strided', 'negstride', 'fortran', 'readonly', 'alias']
+VARIANTS = ['valid', 'wrong_dtype', 'wrong_shape', 'wrong_shape_t', 'strided', 'negstride', 'fortran', 'readonly', 'alias', 'alias_strided']
 
 
 def dtcode(dt):
@@ -216,6 +216,21 @@ def _mk_out(variant, shape, dtype, g, args, e):
         v = _carve(shape, dtype)
         v.setflags(write=False)
         return v, None
+    if variant == 'alias_strided':
+        # documented in-place use (out is the input itself) with an input that is NOT C-contiguous: the buffer is as
+        # invalid as any other non-contiguous out - rejected, and the input left untouched
+        if not e['alias'] or 'contig' not in e['req']:
+            return None      # (remove_bordering documents in-place use without any contiguity requirement)
+        a = args[e['inp']]
+        if a.shape != shape or a.dtype != dtype or a.ndim == 0:
+            return None
+        big = _carve(tuple(2 * s for s in a.shape), a.dtype)
+        v = big[tuple(slice(None, None, 2) for _ in a.shape)]
+        if v.flags.c_contiguous:
+            return None
+        v[...] = a
+        args[e['inp']] = v
+        return v, False
     if variant == 'alias':
         if not e['alias']:
             return None
